@@ -69,6 +69,12 @@ CHECKS = [
         text='Generated parameter configurations and values are rendered by a pharmpy-free writer in NONMEM fixed-width formats (validated by regenerating the checked-in pheno_real files byte for byte) and read back through NONMEMTableFile and read_modelfit_results; values, indices, labels, designated special rows, parameter renaming, cov/cor/coi/se relations at printed precision, individual estimates; ModelfitResults survive to_json/read_results.',
         note='Expected cell values are float(printed field); relations between matrices use tolerances derived from 6 printed digits. lst variants limited to five status-line templates.',
     ),
+    dict(
+        id='C02', level='exploration',
+        technique='property-based testing: histories of modeling transformations; differential between the in-memory model (numeric IR semantics) and the generated control stream interpreted by an independent reference NM-TRAN interpreter; write/read round trip',
+        text='Histories (NONMEM start model from the corpus x 1-5 public modeling transformations) are applied; after every step the generated code is parsed by the reference interpreter and compared with the in-memory model: thetas and omega/sigma matrices, ODE right-hand sides under a consistent compartment numbering (the reported map first, any permutation otherwise), lag/bioavailability/rate/duration parameter indices on dosing compartments, default dose compartment, RATE column flags, every variable both sides define and Y (per DVID); the final model is written, read back and compared (parameters, dataset, function). A violation is keyed by the oracle clause and the transformation that introduced it (the oracle held before that step).',
+        note='Reference interpreter = my reading of the NONMEM guides; ODEs compared through right-hand sides at sampled amounts (no integration); transformations that raise are dropped from the history (their errors belong to C06/C08).',
+    ),
 ]
 
 ALL = ['C%02d' % i for i in range(1, 21)]
